@@ -2302,6 +2302,8 @@ func (d *Data) newLabels(v dvid.VersionID, numLabels uint64) (begin, end uint64,
 // SetNextLabelStart sets the next label ID for this labelmap instance across
 // the entire repo.
 func (d *Data) SetNextLabelStart(nextLabelID uint64) error {
+	d.mlMu.Lock()
+	defer d.mlMu.Unlock()
 	d.NextLabel = nextLabelID
 	if err := d.persistNextLabel(); err != nil {
 		return err
